@@ -360,8 +360,13 @@ func (db *DB) commitWorker() {
 		}
 
 		failedAt, err := db.applyRequests(batch.requests)
-		if err == nil && db.opt.SyncWrites {
-			err = db.wal.Sync()
+		if db.opt.SyncWrites && (err == nil || failedAt > 0) {
+			// Everything applied so far is acknowledged below (the whole batch, or the
+			// requests before failedAt): it must be durable first. If the sync fails,
+			// nothing of this batch may be reported as written.
+			if syncErr := db.wal.Sync(); syncErr != nil {
+				err, failedAt = syncErr, -1
+			}
 		}
 		if db.writeMetrics != nil {
 			totalDur := max(time.Since(batch.batchStart), 0)
